@@ -213,3 +213,137 @@ B('e_request_id_helper_shared', ['C11'], 'R11.d',
   (A, '    def dispatch(self, request):\n        ret = None\n', '    def dispatch(self, request):\n        ret = None\n        self._tag_request(request)\n'))
 T('e_merge_returns_renamed_list', ['C11'],
   (C, r're:\bmerged\b', 'result'))
+
+# ================================================================== second batch: conditions read propositionally, keywords by role
+_POPS = ("        prefix = kwargs.pop('prefix', '')\n"
+         "        rebind_render = kwargs.pop('rebind_render', True)\n"
+         "        inherit_slashes = kwargs.pop('inherit_slashes', True)\n"
+         "        rebind_render_error = kwargs.pop('rebind_render_error', True)\n")
+_BIND_RENDER = 'bind_render = rebind_render or route.render is _noop_render or not callable(route.render)'
+_FIRST = '        render_factory = first(reversed(render_factory_list), key=callable)\n'
+_CAST_SEQ = ('            if isinstance(in_arg[1], Application):\n'
+             '                return SubApplication(*in_arg)\n'
+             '            if callable(in_arg[1]):\n'
+             '                return Route(*in_arg)\n')
+_UNBOUND = "        self.unbound_route = unbound_route = getattr(route, 'unbound_route', route)\n"
+_BOUND_APPS = "        self.bound_apps = getattr(route, 'bound_apps', []) + [app]\n"
+
+# ---- bind_render in other spellings
+T('e_bind_render_de_morgan', ['C10'],
+  (R, _BIND_RENDER, 'keep_render = not rebind_render and route.render is not _noop_render and callable(route.render)\n        bind_render = not keep_render'))
+T('e_bind_render_if_chain', ['C10'],
+  (R, '        ' + _BIND_RENDER + '\n',
+      '        if rebind_render:\n            bind_render = True\n        elif route.render is _noop_render:\n            bind_render = True\n'
+      '        else:\n            bind_render = not callable(route.render)\n'))
+B('e_bind_render_drops_noop_case', ['C10'], 'R10.e',
+  (R, _BIND_RENDER, 'bind_render = rebind_render or not callable(route.render)'))
+B('e_bind_render_widened', ['C10'], 'R10.e',
+  (R, _BIND_RENDER, 'bind_render = rebind_render or route.render is _noop_render or not callable(route.render) or bool(app.debug)'))
+B('e_bind_render_de_morgan_slip', ['C10'], 'R10.e',
+  (R, _BIND_RENDER, 'keep_render = not rebind_render or route.render is not _noop_render and callable(route.render)\n        bind_render = not keep_render'))
+B('e_bind_render_if_chain_slip', ['C10'], 'R10.e',
+  (R, '        ' + _BIND_RENDER + '\n',
+      '        if rebind_render:\n            bind_render = True\n        elif route.render is _noop_render:\n            bind_render = False\n'
+      '        else:\n            bind_render = not callable(route.render)\n'))
+
+# ---- bind keywords in other spellings
+T('e_flags_tuple_of_pops', ['C10', 'C11'],
+  (R, _POPS, "        prefix, rebind_render = kwargs.pop('prefix', ''), kwargs.pop('rebind_render', True)\n"
+             "        inherit_slashes, rebind_render_error = kwargs.pop('inherit_slashes', True), kwargs.pop('rebind_render_error', True)\n"))
+T('e_flag_spelled_out_default', ['C10', 'C11'],
+  (R, "        rebind_render_error = kwargs.pop('rebind_render_error', True)\n",
+      "        rebind_render_error = True\n        if 'rebind_render_error' in kwargs:\n            rebind_render_error = kwargs.pop('rebind_render_error')\n"))
+B('e_flag_spelled_out_wrong_default', ['C10'], 'R10.d',
+  (R, "        rebind_render_error = kwargs.pop('rebind_render_error', True)\n",
+      "        rebind_render_error = False\n        if 'rebind_render_error' in kwargs:\n            rebind_render_error = kwargs.pop('rebind_render_error')\n"))
+T('e_flag_negated_local', ['C10', 'C11'],
+  (R, "        rebind_render_error = kwargs.pop('rebind_render_error', True)\n", "        keep_own_render_error = not kwargs.pop('rebind_render_error', True)\n"),
+  (R, "        if rebind_render_error:\n            render_error = getattr(app.error_handler, 'render_error', None)\n        else:\n            render_error = route.render_error\n",
+      "        if keep_own_render_error:\n            render_error = route.render_error\n        else:\n            render_error = getattr(app.error_handler, 'render_error', None)\n"))
+B('e_flag_negated_local_swapped', ['C10'], 'R10.d',
+  (R, "        rebind_render_error = kwargs.pop('rebind_render_error', True)\n", "        keep_own_render_error = not kwargs.pop('rebind_render_error', True)\n"),
+  (R, "        if rebind_render_error:\n            render_error = getattr(app.error_handler, 'render_error', None)\n        else:\n            render_error = route.render_error\n",
+      "        if not keep_own_render_error:\n            render_error = route.render_error\n        else:\n            render_error = getattr(app.error_handler, 'render_error', None)\n"))
+
+# ---- default-then-override
+T('e_render_error_default_then_override', ['C10', 'C11'],
+  (R, "        if rebind_render_error:\n            render_error = getattr(app.error_handler, 'render_error', None)\n        else:\n            render_error = route.render_error\n",
+      "        render_error = route.render_error\n        if rebind_render_error:\n            render_error = getattr(app.error_handler, 'render_error', None)\n"))
+B('e_render_error_override_swapped', ['C10'], 'R10.d',
+  (R, "        if rebind_render_error:\n            render_error = getattr(app.error_handler, 'render_error', None)\n        else:\n            render_error = route.render_error\n",
+      "        render_error = getattr(app.error_handler, 'render_error', None)\n        if rebind_render_error:\n            render_error = route.render_error\n"))
+T('e_carry_through_default_then_override', ['C10', 'C11'],
+  (R, '            render = route.render if callable(route.render) else _noop_render\n',
+      '            render = route.render\n            if not callable(render):\n                render = _noop_render\n'))
+
+# ---- the newest factory, spelled out
+T('e_factory_search_loop', ['C10', 'C11'],
+  (R, _FIRST, '        render_factory = None\n        for candidate in reversed(render_factory_list):\n            if callable(candidate):\n'
+              '                render_factory = candidate\n                break\n'))
+B('e_factory_search_loop_oldest_first', ['C10'], 'R10.e',
+  (R, _FIRST, '        render_factory = None\n        for candidate in render_factory_list:\n            if callable(candidate):\n'
+              '                render_factory = candidate\n                break\n'))
+B('e_factory_search_loop_last_wins', ['C10'], 'R10.e',
+  (R, _FIRST, '        render_factory = None\n        for candidate in reversed(render_factory_list):\n            if callable(candidate):\n'
+              '                render_factory = candidate\n'))
+T('e_factory_next_genexp', ['C10', 'C11'],
+  (R, _FIRST, '        render_factory = next((rf for rf in reversed(render_factory_list) if callable(rf)), None)\n'))
+
+# ---- getattr defaults spelled out
+T('e_unbound_route_try_except', ['C10', 'C11'],
+  (R, _UNBOUND, '        try:\n            unbound_route = route.unbound_route\n        except AttributeError:\n            unbound_route = route\n'
+                '        self.unbound_route = unbound_route\n'))
+B('e_unbound_route_try_except_none', ['C10'], 'R10.b',
+  (R, _UNBOUND, '        try:\n            unbound_route = route.unbound_route\n        except AttributeError:\n            unbound_route = route\n'
+                '        self.unbound_route = route\n'))
+T('e_bound_apps_hasattr', ['C10', 'C11'],
+  (R, _BOUND_APPS, "        if hasattr(route, 'bound_apps'):\n            self.bound_apps = route.bound_apps + [app]\n        else:\n            self.bound_apps = [app]\n"))
+B('e_bound_apps_hasattr_prepends', ['C10'], 'R10.b',
+  (R, _BOUND_APPS, "        if hasattr(route, 'bound_apps'):\n            self.bound_apps = [app] + route.bound_apps\n        else:\n            self.bound_apps = [app]\n"))
+T('e_bound_apps_copy_then_append', ['C10', 'C11'],
+  (R, _BOUND_APPS, "        self.bound_apps = list(getattr(route, 'bound_apps', []))\n        self.bound_apps.append(app)\n"))
+B('e_bound_apps_copy_then_insert_front', ['C10'], 'R10.b',
+  (R, _BOUND_APPS, "        self.bound_apps = list(getattr(route, 'bound_apps', []))\n        self.bound_apps.insert(0, app)\n"))
+
+# ---- cast_to_route_factory through a selector local
+T('e_cast_selector_local', ['C10', 'C11'],
+  (A, _CAST_SEQ, '            if isinstance(in_arg[1], Application):\n                factory_type = SubApplication\n'
+                 '            elif callable(in_arg[1]):\n                factory_type = Route\n            else:\n                factory_type = None\n'
+                 '            if factory_type is not None:\n                return factory_type(*in_arg)\n'))
+B('e_cast_selector_local_swapped', ['C10'], 'R10.a',
+  (A, _CAST_SEQ, '            if callable(in_arg[1]) and not isinstance(in_arg[1], Application):\n                factory_type = SubApplication\n'
+                 '            elif isinstance(in_arg[1], Application):\n                factory_type = Route\n            else:\n                factory_type = None\n'
+                 '            if factory_type is not None:\n                return factory_type(*in_arg)\n'))
+
+# ---- bind_all: pre-filter, extend, .get defaults
+T('e_bind_all_prefilter_then_bind', ['C10', 'C11'],
+  (A, '        ret = []\n\n        kwargs[\'prefix\']', "        kwargs['prefix']"),
+  (A, _BIND_ALL_LOOP, '        inner = [rt for rt in self.app.routes if not isinstance(rt, NullRoute)]\n        return [rt.bind(app, **kwargs) for rt in inner]\n'))
+B('e_bind_all_prefilter_sorted', ['C10'], 'R10.a',
+  (A, '        ret = []\n\n        kwargs[\'prefix\']', "        kwargs['prefix']"),
+  (A, _BIND_ALL_LOOP, '        inner = sorted((rt for rt in self.app.routes if not isinstance(rt, NullRoute)), key=lambda rt: rt.pattern)\n'
+                      '        return [rt.bind(app, **kwargs) for rt in inner]\n'))
+T('e_bind_all_extend_genexp', ['C10', 'C11'],
+  (A, '        for rt in self.app.routes:\n            if isinstance(rt, NullRoute):\n                continue\n'
+      '            bound_rt = rt.bind(app, **kwargs)\n            ret.append(bound_rt)\n',
+      '        ret.extend(rt.bind(app, **kwargs) for rt in self.app.routes if not isinstance(rt, NullRoute))\n'))
+B('e_bind_all_get_default_ignores_caller', ['C10'], 'R10.e',
+  (A, "        kwargs.setdefault('rebind_render', self.rebind_render)\n", "        kwargs['rebind_render'] = dict().get('rebind_render', self.rebind_render)\n"))
+
+# ---- C11: freshness judged where the write happens
+T('e_route_methods_local_set', ['C11'],
+  (R, "        self.methods = methods and set([m.upper() for m in methods])\n        if self.methods:\n",
+      "        if methods:\n            methods = set([m.upper() for m in methods])\n        self.methods = methods\n        if self.methods:\n"))
+B('e_meta_peripherals_aliased_then_extended', ['C11'], 'R11.d',
+  (META, '        self.peripherals = list(base_peripherals)\n        self.peripherals.extend(peripherals or [])\n',
+         '        self.peripherals = base_peripherals\n        self.peripherals += peripherals or []\n'))
+T('e_meta_peripherals_copy_then_iadd', ['C11'],
+  (META, '        self.peripherals = list(base_peripherals)\n        self.peripherals.extend(peripherals or [])\n',
+         '        self.peripherals = list(base_peripherals)\n        self.peripherals += peripherals or []\n'))
+T('e_linecache_key_named_parts', ['C11'],
+  (S, "    code_hash = hashlib.sha1(code_str.encode('utf8')).hexdigest()[:16]\n",
+      "    source_bytes = code_str.encode('utf8')\n    full_digest = hashlib.sha1(source_bytes).hexdigest()\n    code_hash = full_digest[:16]\n"))
+B('e_linecache_key_without_hash', ['C11'], 'R11.d',
+  (S, '    unique_filename = "<sinter generated %s %s>" % (name, code_hash)', '    unique_filename = "<sinter generated %s %s>" % (name, len(code_str))'))
+T('e_add_index_reassigned', ['C11'],
+  (A, '            self.routes.insert(index, br)\n            index += 1\n', '            self.routes.insert(index, br)\n            index = index + 1\n'))
